@@ -15,7 +15,7 @@ for p in $props; do
     [ -d schemas ] && cp -r schemas "$tmp/verif/"
     rsync -a --exclude .git /repo/ "$tmp/repo/"
     if ! (cd "$tmp/repo" && patch -s -p1 < "$OLDPWD/$patch"); then echo "SELFTEST-ERROR $p/$name: patch does not apply"; bad=1; rm -rf "$tmp"; continue; fi
-    genonly=""; case "$p" in C15|C34|C33) genonly="${SELFTEST_GEN_ONLY:-vlists}";; C17) genonly="${SELFTEST_GEN_ONLY:-venums,vneg}";; esac   # generated-code properties: one corpus schema is enough to exercise a template
+    genonly=""; case "$p" in C15|C34|C33) genonly="${SELFTEST_GEN_ONLY:-vlists}";; C29) genonly="${SELFTEST_GEN_ONLY:-ctestschema}";; C17) genonly="${SELFTEST_GEN_ONLY:-venums,vneg}";; esac   # generated-code properties: one corpus schema is enough to exercise a template
     # must-fail cases only need some obligation to fail: a short solver timeout and replay budget keep them quick
     # (a shorter timeout can only add failures); must-pass cases run with the check's own settings
     tmo=30; budget="${VERIF_FAIL_BUDGET_S:-}"; case "$name" in mustfail-*) tmo=8; budget="${VERIF_FAIL_BUDGET_S:-20}";; esac
